@@ -122,7 +122,7 @@ class Ctx:
 
 
 # ------------------------------------------------------------------ the proved tie (translator) and its falsifier
-EXT_PIDS = {"C01", "C02", "C03", "C04", "C05", "C06", "C07", "C08", "C09", "C12", "C13", "C15"}
+EXT_PIDS = {"C01", "C02", "C03", "C04", "C05", "C06", "C07", "C08", "C09", "C12", "C13", "C14", "C15", "C16"}
 TOOLPY = "/opt/veriftools/pyvenv/bin/python"
 
 UNIT_CRATE = {"XorShiftRng": "rand_xorshift", "JitterRng": "rand_jitter", "JitterLfsr": "rand_jitter", "EcState": "rand_jitter",
